@@ -173,7 +173,9 @@ def verify_function(make_ctx, reg, qualname, timeout_ms=10000, both=False):
         if outcome[0] == "normal":
             result = outcome[1]
             pf.env["result"] = result
-            genv = dict(pf.env)
+            # ghost updates may name the function's final locals (they record intermediate values as ghost state)
+            genv = dict(getattr(run, "entry_frame", pf).env)
+            genv.update(pf.env)
             for gu in (k["ghost_init"] if (k is not None and is_init) else []) + c["ghost_update"]:
                 exec_ghost(it, reg, gu, pf, result, run.old_state, genv)
             # lemma instances at the exit may mention the function's final locals (like loop invariants do)
